@@ -106,6 +106,7 @@ type CheckOutcome struct {
 	Trusted    []string
 	Exit       int
 	Unreachable []string
+	Anchors    []string // ghost-update anchors that matched an instruction (locked like obligations: a vanished anchor is reported)
 	Wall       float64
 	LoadS      float64
 	GenS       float64
@@ -165,6 +166,13 @@ func cmdLock(args []string) int {
 				if r.OK && r.Variant == "" {
 					names = append(names, r.O.Name)
 				}
+			}
+		}
+		seenA := map[string]bool{}
+		for _, a := range out.Anchors {
+			if !seenA[a] {
+				seenA[a] = true
+				names = append(names, a)
 			}
 		}
 		sort.Strings(names)
@@ -312,6 +320,8 @@ func generate(p *Prog, prop string, ff *FindingsFile, out *CheckOutcome) []*Obli
 		for _, a := range fc.Ghosts {
 			if !g.declared["anchor-used:"+fc.Key+":"+a.Anchor] {
 				out.EngineErrs = append(out.EngineErrs, fmt.Sprintf("%s: ghost anchor %q matches no instruction", shortCallee(k), a.Anchor))
+			} else {
+				out.Anchors = append(out.Anchors, shortCallee(k)+"#ghost-anchor["+a.Anchor+"]")
 			}
 		}
 		for _, o := range g.obligs {
@@ -542,13 +552,9 @@ func runCheck(o checkOpts) *CheckOutcome {
 	}
 	for f, e := range p.db.FileErrs {
 		// a broken contract file of another property (named …_cNN.go) does not concern this check
-		base := strings.ToLower(filepath.Base(f))
 		other := false
-		if i := strings.LastIndex(base, "_c"); i >= 0 && strings.HasSuffix(base, ".go") {
-			tag := strings.TrimSuffix(base[i+1:], ".go")
-			if len(tag) >= 3 && tag[1] >= '0' && tag[1] <= '9' && !strings.EqualFold(tag, o.prop) {
-				other = true
-			}
+		if fp := fileProp(f); fp != "" && !strings.EqualFold(fp, o.prop) {
+			other = true
 		}
 		if !other {
 			return fail("contracts: " + e.Error())
@@ -686,10 +692,22 @@ func runCheck(o checkOpts) *CheckOutcome {
 	lock := loadLock(o.verif, o.prop)
 	if o.only == "" && lock != nil {
 		have := map[string]bool{}
+		// the ~k suffix numbers the program points one clause is checked at (back edges, matching instructions): their COUNT may
+		// change under harmless edits, so a clause counts as still generated when it is generated at least once
+		stem := func(n string) string {
+			if i := strings.LastIndex(n, "~"); i > 0 && !strings.ContainsAny(n[i:], "]) ") {
+				return n[:i]
+			}
+			return n
+		}
 		for _, r := range results {
-			have[r.O.Name] = true
+			have[stem(r.O.Name)] = true
+		}
+		for _, a := range out.Anchors {
+			have[a] = true
 		}
 		for _, name := range lock {
+			name = stem(name)
 			if strings.Contains(name, "#cover[return") && o.tier != "thorough" {
 				continue
 			}
